@@ -8,9 +8,18 @@
    sig ts a b    : the indices in [a, b) of the tokens that are not white space, newlines or comments
    leaves t      : the token indices at the leaves of t, left to right (Spec/LuaGrammar.v)
    next_newline ts q : index of the first newline token at or after q (the number of tokens if none)
-   All statements are for every token list, valid program or not. *)
-From PV Require Import Base.Prelude Spec.LuaTokens Spec.LuaGrammar Model.Tokens Model.Parser Model.ParserInst
-  Proofs.ParserProofs Proofs.ParserSpecs Proofs.ParserTheorems.
+   The first four theorems are for every token list, valid program or not.  C08_complete is the completeness half:
+   derives ts g / line_scoped ts g : g is a derivation of ts in the reference grammar (Spec/LuaGrammar.v) laid out so that
+                   every one-line if owns the rest of its line
+   in_frag g     : the exclusions (Proofs/ParserComplete2.v, a computable predicate on the derivation alone):
+                   a statement that starts with '(' directly follows a ';' (Lua's call ambiguity); the body of a
+                   one-line if has a first item which is not a do-block (known finding: `if (c) do` is read as
+                   `if (c) then`); the else part of a one-line if has at least one statement (picotool drops an
+                   empty one); only if-nodes carry the short flag
+   tokdata_ok ts g : the token stored at each Tok leaf of g has the data of the token at that index of ts
+   view root     : the Python-visible projection of the model's tree (Model/AstWriter.v), the tree the monitor reads *)
+From PV Require Import Base.Prelude Spec.LuaTokens Spec.LuaGrammar Model.Tokens Model.Parser Model.ParserInst Model.AstWriter
+  Proofs.ParserProofs Proofs.ParserSpecs Proofs.ParserTheorems Proofs.ParserComplete2 Proofs.ParserComplete6.
 
 (* the recursion budget the model supplies (number of tokens + 2 levels) is never exhausted: OutOfFuel is not
    an outcome, so every result of the model is a result of the modelled recursive descent *)
@@ -63,3 +72,22 @@ Example C08_nonvacuous :
   exists fs1 fs2 st2, lua_parse ts = Ok (Node tChunk 0 13 false [Lst [Node tStatIf 0 9 true fs1; st2]], 13) /\
                       st2 = Node tStatAssignment 9 13 false fs2.
 Proof. cbv zeta. eexists _, _, _. split; vm_compute; reflexivity. Qed.
+
+(* completeness: every program of the dialect (within the stated exclusions) is accepted, consumed to its last
+   token, and the exposed tree is the one the derivation denotes - statement kinds, nesting, chains, lists, targets,
+   operators and operands in source order, one-line ifs owning exactly their line *)
+Theorem C08_complete : forall ts g,
+  derives ts g = true -> line_scoped ts g = true -> in_frag g = true -> tokdata_ok ts g = true ->
+  exists root e, lua_parse ts = Ok (root, e) /\ consumed ts e = true /\ denotes g (view root) = true.
+Proof. exact parse_complete. Qed.
+Print Assumptions C08_complete.
+
+(* non-vacuity:  local t={1,x=2} / if (t.x) f(t) else y=-t[1]+2 / for i=1,3 do t.x+=i end / return t
+   (four lines, with spaces); its derivation (the model's tree with the operator nest flattened) satisfies every
+   hypothesis of C08_complete and contains a one-line if with an else part *)
+Example C08_complete_nonvacuous :
+  let ts := c08_example_ts in
+  let g := match lua_parse ts with Ok (root, _) => to_deriv 50 root | Err _ => PNone end in
+  derives ts g = true /\ line_scoped ts g = true /\ in_frag g = true /\ tokdata_ok ts g = true /\
+  length (short_ifs g) = 1%nat /\ length (leaves g) = 45%nat.
+Proof. cbv zeta. repeat split; vm_compute; reflexivity. Qed.
